@@ -187,6 +187,11 @@ class OutputCollector:
         return self._batches
 
     @property
+    def log_batches(self) -> list[AnnotatedBatch]:
+        """The accumulated client-log batches (everything except the data batch), in emission order."""
+        return [ab for i, ab in enumerate(self._batches) if i != self._data_batch_idx]
+
+    @property
     def remaining_response_bytes(self) -> int | None:
         """HTTP body budget remaining for this iteration (snapshot at construction).
 
